@@ -20,7 +20,11 @@ their own, __default_config__): the complete result is what is handed to parse_o
 there compare unequal.  Besides the input channels the space has three axes that make states no text input reaches:
 values given as already typed Python objects built by the Python constructors ("object-native" channel, "native"
 declared defaults); an ambient process environment read by default_env parsers during the first parse AND every
-transition; values that live in a file of their own (enable_path).
+transition; values that live in a file of their own (enable_path).  Further axes: arguments declared with nargs (the
+value is a list of items; every item / one item of several given by file name -> metadata inside list items); signed
+number lookalikes among the str values.  Side check (not an edge of the search): for the states in which the input gives
+None where the parser declares a non-None default, dump() with its DEFAULT options (skip_none=True) -> parse_string ->
+dump() must be byte-identical as well.
 
 One fresh parser is built per input (first parse) and one per initial state (all its transitions); every object
 handed to the library is a private deep copy.  Deviations are attributed to a root cause by differential probes
@@ -69,6 +73,7 @@ SIG_SUBDCF = "text:sub-command-named-by-the-default-config-file-wins-over-the-du
 SIG_DKW = "reparse:class-spec:dict_kwargs-of-the-declared-default-merged-into-the-given-ones"
 SIG_NSNAME = "text:argument-named-like-a-Namespace-attribute:config-text-not-run-through-the-type"
 SIG_SETORDER = "reparse:Set:dump-order-follows-the-insertion-history-of-the-set"
+SIG_SKIPNONE = "text:default-dump-options:None-given-over-a-non-None-default-is-omitted-and-comes-back-as-the-default"
 DEPTH = 3
 
 # ---------------------------------------------------------------------------------------------------
@@ -343,6 +348,9 @@ def legit_raw(raw, typed, top=True):
         return True
     if type(raw) is list and type(typed) is list and len(raw) == len(typed):
         return all(legit_raw(x, y, False) for x, y in zip(raw, typed))
+    if type(raw) is list and type(typed) is tuple and len(raw) == len(typed):
+        # the sloppy but common spelling: a list written as the default of a Tuple argument
+        return all(legit_raw(x, y, False) for x, y in zip(raw, typed))
     if type(raw) is dict and type(typed) is dict and list(raw) == list(typed):
         return all(legit_raw(raw[k], typed[k], False) for k in raw)
     return False
@@ -383,7 +391,7 @@ class Env:
                 from mc.util import outcome
 
                 hp = S._new(self.mode, config=False)
-                hp.add_argument("--x", type=S.build_type(spec["type"]))
+                hp.add_argument("--x", type=S.build_type(spec["type"]), **({"nargs": spec["nargs"]} if "nargs" in spec else {}))
                 o = outcome(hp.parse_object, {"x": dcopy(raw)})
                 self.parses += 1
                 if o["kind"] != "ok":
@@ -458,7 +466,7 @@ def call_input(env, channel, value):
 
 
 def cleanup_input_files():
-    for name in (S.CONF, S.DCF, S.VAL):
+    for name in (S.CONF, S.DCF, S.VAL, *S.NARGS_ITEM_FILES):
         if os.path.exists(name):
             os.remove(name)
 
@@ -893,6 +901,66 @@ def _union_root_cause(env, root, fmt):
     return False
 
 
+def _none_over_default_paths(v, b0, path=(), out=None):
+    """Paths (below namespaces / dicts) at which the configuration holds None while the defaults-only configuration
+    holds something else: a None that the INPUT supplied over a non-None declared default."""
+    out = [] if out is None else out
+    if isinstance(v, (argparse.Namespace, dict)):
+        for k, x in _items(v).items():
+            if isinstance(k, str) and k.startswith("__"):
+                continue
+            if x is None:
+                ok, d = lookup(b0, path + (k,))
+                if ok and d is not None:
+                    out.append(path + (k,))
+            elif isinstance(x, (argparse.Namespace, dict)):
+                _none_over_default_paths(x, b0, path + (k,), out)
+    return out
+
+
+def _default_options_dump(env, root, baselines):
+    """The dump clause with the DEFAULT options of `dump` (skip_none=True; the edges of the search use skip_none=False),
+    executed for the states in which the input gave None where the parser declares a non-None default - the only states
+    in which the two option sets can part: dump, parse_string, dump must give byte-identical text.
+    -> list of (signature, detail).  A difference that consists of nothing but such None values coming back as the
+    declared default is the documented price of skip_none (one signature); everything else is reported by class."""
+    from mc.util import outcome
+
+    if baselines[0] is None or env.mode != "yaml":
+        return []
+    paths = _none_over_default_paths(_drop_cfg(root.view), baselines[0])
+    if not paths:
+        return []
+    env.skipnone_states += 1
+    env.transitions += 1
+    cfgtxt = f"config {short(root.view)}"
+    p = env.p()
+    d0 = outcome(p.dump, root.cfg if root.has_set else dcopy(root.cfg))
+    env.dumps += 1
+    if d0["kind"] != "ok" or not isinstance(d0["value"], str):
+        return [(f"default-dump-options:dump-raises-{_exc(d0)}:{_msg_class(d0.get('message', ''))}", f"{cfgtxt}: {str(d0.get('message'))[:300]}")]
+    o = _parse_text_with(p, root, d0["value"])
+    if o["kind"] != "ok" or not isinstance(o["value"], argparse.Namespace):
+        return [(f"default-dump-options:raises-{_exc(o)}:{_failing_kinds(root, o.get('message', ''))}", f"{cfgtxt} text {d0['value']!r}: {str(o.get('message'))[:300]}")]
+    d1 = outcome(p.dump, o["value"])
+    env.dumps += 1
+    if d1["kind"] == "ok" and d1["value"] == d0["value"]:
+        return []
+    a, b = _drop_cfg(root.view), _drop_cfg(_strip(o["value"]))
+    diffs = all_diffs(a, b)
+    detail = f"{cfgtxt}: dump() = {d0['value']!r}, re-parsed and dumped again = {d1.get('value', _exc(d1))!r}"
+    unexplained = []
+    for path, what, va, vb in diffs:
+        okd, dv = lookup(baselines[0], tuple(x for x in path if x != "{member}"))
+        if not (va is None and path in paths and okd and ckey(vb) == ckey(dv)):
+            unexplained.append(what)
+    if diffs and not unexplained:
+        return [(SIG_SKIPNONE, detail)]
+    if d1["kind"] != "ok":
+        return [(f"default-dump-options:second-dump-raises-{_exc(d1)}:{_msg_class(d1.get('message', ''))}", detail)]
+    return [(f"default-dump-options:dump-changed:{unexplained[0] if unexplained else 'same-state'}", detail)]
+
+
 def _msg_class(msg):
     """Refactor-robust class of a dump error message (never raw values)."""
     import re
@@ -1004,6 +1072,7 @@ def judge(env, root, baselines):
             else:
                 add(op, f"state-changed:{what}:{cls}", detail)
 
+    devs += _default_options_dump(env, root, baselines)
     for sig, g in groups.items():
         label = _edge_label(g["ops"], env)
         if sig.startswith((SIG_DECIMAL, SIG_DEFAULT, SIG_UNION, SIG_DEFTEXT, SIG_OPTNULL, SIG_SUBDCF, SIG_DKW, SIG_NSNAME, SIG_SETORDER)):
@@ -1117,15 +1186,26 @@ def _meta_census(cfg, _top=True):
     return top, nested
 
 
+def _meta_in_list_items(cfg, _inlist=False):
+    """Does a parse result carry metadata inside an item of a list?"""
+    if isinstance(cfg, argparse.Namespace):
+        cfg = vars(cfg)
+    if isinstance(cfg, dict):
+        return (_inlist and any(k in META_KEYS for k in cfg)) or any(_meta_in_list_items(v) for k, v in cfg.items() if k not in META_KEYS)
+    if isinstance(cfg, (list, tuple)):
+        return any(_meta_in_list_items(v, True) for v in cfg)
+    return False
+
+
 def _run_task(task, cwd):
     spec = task["spec"]
     out = {"spec": spec, "hashseed": task.get("hashseed"), "status": "ok", "inputs": 0, "accepted": 0, "rejected": 0, "not_expressible": 0, "escapes": [],
            "states": 0, "extra_states": 0, "singletons": 0, "transitions": 0, "parses": 0, "dumps": 0, "devs": [],
            "nontrivial": 0, "channels": {}, "samples": [], "state_hashes": [],
-           "states_with_nested_metadata": 0, "states_with_toplevel_metadata": 0, "ambient_specs": 0, "ambient_effective": 0,
+           "states_with_nested_metadata": 0, "states_with_toplevel_metadata": 0, "states_with_metadata_in_list_items": 0, "nargs_states": 0, "skipnone_states": 0, "ambient_specs": 0, "ambient_effective": 0,
            "states_overriding_ambient": 0}  # fmt: skip
     env = Env(spec, cwd)
-    env.transitions = env.dumps = 0
+    env.transitions = env.dumps = env.skipnone_states = 0
     if env.status != "ok":
         out["status"] = env.status
         out["parses"] = env.parses
@@ -1183,6 +1263,8 @@ def _run_task(task, cwd):
             top_meta, nested_meta = _meta_census(o["value"])
             out["states_with_toplevel_metadata"] += 1 if top_meta else 0
             out["states_with_nested_metadata"] += 1 if nested_meta else 0
+            out["states_with_metadata_in_list_items"] += 1 if nested_meta and _meta_in_list_items(o["value"]) else 0
+            out["nargs_states"] += 1 if "nargs" in spec and root.key != base_key else 0
             for sig, detail in devs:
                 out["devs"].append((sig, [channel, value], detail))
             if len(out["samples"]) < 2 and out["states"] in (2, 5):
@@ -1192,6 +1274,7 @@ def _run_task(task, cwd):
     out["transitions"] = env.transitions
     out["parses"] = env.parses
     out["dumps"] = env.dumps
+    out["skipnone_states"] = env.skipnone_states
     return out
 
 
@@ -1220,7 +1303,7 @@ def explore(ctx):
     tasks = S.parser_specs(ctx.tier)
     tot = {k: 0 for k in ("inputs", "accepted", "rejected", "not_expressible", "states", "extra_states", "singletons",
                           "transitions", "parses", "dumps", "nontrivial", "states_with_nested_metadata",
-                          "states_with_toplevel_metadata", "ambient_specs", "ambient_effective", "states_overriding_ambient")}  # fmt: skip
+                          "states_with_toplevel_metadata", "states_with_metadata_in_list_items", "nargs_states", "skipnone_states", "ambient_specs", "ambient_effective", "states_overriding_ambient")}  # fmt: skip
     status, channels, shapes, types_accepting, all_types = {}, {}, {}, set(), set()
     escapes = []
     hashseed_tasks = {}
@@ -1283,7 +1366,8 @@ def explore(ctx):
             "constructors": ["Optional", "Union", "List", "Sequence", "DictStr", "DictInt", "Mapping", "OrderedDict", "Tuple2", "TupleVar", "Set"],
             "class_like": S.CLASSLIKE + S.DATACLASSES,
             "shapes": S.shapes(ctx.quick) + (list(S.NAME_SHAPES)[:4] if ctx.quick else list(S.NAME_SHAPES)),
-            "channels": S.CHANNELS + S.EMPTY_CHANNELS + S.FILE_CHANNELS + S.SIBLING_CHANNELS + S.ENV_CHANNELS + ["argv-raw"] + S.NATIVE_CHANNELS + S.OWNFILE_CHANNELS,
+            "channels": S.CHANNELS + S.EMPTY_CHANNELS + S.FILE_CHANNELS + S.SIBLING_CHANNELS + S.ENV_CHANNELS + ["argv-raw"] + S.NATIVE_CHANNELS + S.OWNFILE_CHANNELS + S.NARGS_CHANNELS,
+            "nargs": "target argument declared with nargs " + ", ".join(map(str, S.NARGS)) + " (shapes " + ", ".join(S.NARGS_SHAPES) + "); items inline / each in a file of its own / one of them in a file",
             "default_forms": ["raw", "typed (by the library)", "native (Python constructors)"],
             "ambient_environment": "default_env=True parsers with the variable of the target argument and of a sibling set for the whole life of the spec: " + ", ".join(S.AMBIENT_SHAPES),
             "classification_depth": DEPTH,
@@ -1314,9 +1398,12 @@ def explore(ctx):
         return
     missing = sorted(all_types - types_accepting)
     ctx.require(not missing, f"every type of the grammar has an accepted value (without: {missing[:4]})")
-    want_ch = set(S.CHANNELS + S.EMPTY_CHANNELS + S.FILE_CHANNELS + S.SIBLING_CHANNELS + S.ENV_CHANNELS + ["argv-raw"] + S.NATIVE_CHANNELS + S.OWNFILE_CHANNELS)
+    want_ch = set(S.CHANNELS + S.EMPTY_CHANNELS + S.FILE_CHANNELS + S.SIBLING_CHANNELS + S.ENV_CHANNELS + ["argv-raw"] + S.NATIVE_CHANNELS + S.OWNFILE_CHANNELS + S.NARGS_CHANNELS)
     ctx.require(tot["states_with_nested_metadata"] >= 100, "at least 100 states carry metadata below the top level (values loaded from their own file)")
     ctx.require(tot["states_with_toplevel_metadata"] >= 100, "at least 100 states carry top-level metadata (default config files)")
+    ctx.require(tot["states_with_metadata_in_list_items"] >= 50, "at least 50 states carry metadata inside the items of a list (nargs items loaded from their own files)")
+    ctx.require(tot["nargs_states"] >= 300, "at least 300 non-default states of parsers whose target argument is declared with nargs")
+    ctx.require(tot["skipnone_states"] >= 100, "at least 100 states in which the input gives None over a non-None declared default (dump clause with the default options)")
     ctx.require(tot["ambient_effective"] >= 0.8 * tot["ambient_specs"] > 0, "the ambient environment is a source for at least 80% of the parser specs that declare one")
     ctx.require(tot["states_overriding_ambient"] >= 200, "at least 200 states in which an input overrides (or adds to) what the ambient environment supplies")
     ctx.require(want_ch <= set(channels), f"every channel yields accepted inputs (without: {sorted(want_ch - set(channels))})")
